@@ -24,7 +24,7 @@ STANDINS = os.path.join(VERIF, "standins")
 EVIDENCE = os.path.join(VERIF, "evidence")
 OUT = os.path.join(VERIF, "out")          # replay artifacts (git-ignored)
 GUARD = "NANOLANG_VERIF"
-NCPU = os.cpu_count() or 4
+NCPU = int(os.environ.get("VERIF_JOBS", os.cpu_count() or 4))
 
 BASE_CFLAGS = "-Wall -Wextra -std=c99 -g -Isrc -D_GNU_SOURCE"   # repo CFLAGS minus -Werror
 VARIANTS = {
@@ -350,10 +350,13 @@ def write_module(path, name, body, extends=("Integers", "Sequences")):
 
 # ---------------------------------------------------------- known findings
 def load_findings():
+    out = []
     p = os.path.join(VERIF, "known_findings.json")
-    if not os.path.exists(p):
-        return []
-    return json.load(open(p)).get("findings", [])
+    if os.path.exists(p):
+        out += json.load(open(p)).get("findings", [])
+    for q in sorted(glob.glob(os.path.join(VERIF, "known_findings.d", "*.json"))):
+        out += json.load(open(q)).get("findings", [])
+    return out
 
 
 def findings_for(prop):
